@@ -642,10 +642,23 @@ pub fn listen<S: ?Sized + AsRef<str>, H: crate::ConnectionHandler + Send + Sync 
             let (r, mut w) = stream.split().unwrap();
             let mut br = BufReader::new(r);
             let mut iface: Option<String> = None;
+            // bytes handle() had already buffered but not processed (after an upgrade)
+            let mut unread: Vec<u8> = Vec::new();
             loop {
-                match handler.handle(&mut br, &mut w, iface.clone()) {
-                    Ok((_, i)) => {
+                let res = {
+                    let mut input = std::io::Read::chain(unread.as_slice(), &mut br);
+                    handler.handle(&mut input, &mut w, iface.clone())
+                };
+                match res {
+                    Ok((u, i)) => {
+                        let switched = iface.is_none() && i.is_some();
+                        unread = if i.is_some() { u } else { Vec::new() };
                         iface = i;
+                        if switched && !unread.is_empty() {
+                            // hand the buffered bytes to the upgraded handler even if
+                            // nothing else arrives
+                            continue;
+                        }
                         match br.fill_buf() {
                             Err(_) => break,
                             Ok([]) => break,
